@@ -59,7 +59,7 @@ def peer_cfg(script, p):
 
 def line(k, **kw):
     d = {"k": k, "cfg": 0, "op": "", "id": "", "peer": "", "conn": "", "src": "", "dst": "",
-         "b": [], "d": 0, "w": 0, "t": 0, "ev": [], "sid": ""}
+         "b": [], "d": 0, "w": 0, "t": 0, "ev": [], "sid": "", "racy": False}
     d.update(kw)
     return d
 
@@ -79,12 +79,23 @@ def norm_event(e):
             "rid": rid, "t": e["t"]}
 
 
+def stim_lines(script, i, st):
+    if st["op"] == "multi":
+        out = []
+        for j, sub in enumerate(st["multi"]):
+            ln = stim_line(script, "%d_%d" % (i, j), sub)
+            ln["racy"] = j > 0
+            out.append(ln)
+        return out
+    return [stim_line(script, i, st)]
+
+
 def stim_line(script, i, st):
     op = st["op"]
     kw = dict(op=op, peer=st["peer"], conn=st["conn"], b=list(st["b"]), d=st["d"], w=st["w"],
               sid=script["id"])
     if op in API_OPS:
-        kw["id"] = "a%d" % i
+        kw["id"] = "a%s" % i
     if op == "connect":
         kw["src"] = host_of(st["src"])
         kw["dst"] = host_of(st["dst"])
@@ -101,8 +112,8 @@ def build(script, obs_lines):
     for i, st in enumerate(script["steps"]):
         if i not in byi:
             break
-        out.append(stim_line(script, i, st))
-        if st["op"] == "close":
+        out.extend(stim_lines(script, i, st))
+        if st["op"] == "close" or any(x["op"] == "close" for x in st.get("multi") or []):
             closed = True
         o = byi[i]
         out.append(line("obs", t=o["t"], ev=[norm_event(e) for e in o["ev"]], sid=script["id"]))
